@@ -165,6 +165,29 @@ def cosim_ops(ctx: Ctx, rp, k: int):
         if hasattr(v.vehicle_state, "route") or type(v.vehicle_state).__name__ in ("ChargeQueueing", "ChargingStation", "ChargingBase", "ReserveBase"):
             ctx.count("cosim_change_membership_while_engaged")
         return res.unwrap()
+    if kind == "add_vehicle":
+        # a new (idle) vehicle joins the fleet mid-run, placed where an existing one stands or at a request's origin
+        import dataclasses
+
+        from nrel.hive.state.simulation_state import simulation_state_ops as sso
+        from nrel.hive.state.vehicle_state.idle import Idle
+
+        vids = rp.s.get_vehicle_ids()
+        if not vids:
+            return rp
+        proto = rp.s.vehicles[r.choice(vids)]
+        vid = f"cosim_v{k}"
+        pos = proto.position
+        if rp.s.requests and r.random() < 0.5:
+            pos = rp.s.requests[r.choice(rp.s.get_request_ids())].position
+        from nrel.hive.state.driver_state.driver_state import DriverState
+
+        newv = dataclasses.replace(proto, id=vid, position=pos, vehicle_state=Idle.build(vid), driver_state=DriverState.build(vid, None, None, False), distance_traveled_km=0.0)
+        res = sso.add_vehicle_safe(rp.s, newv)
+        if isinstance(res, Failure):
+            return rp
+        ctx.count("cosim_add_vehicle")
+        return rp._replace(s=res.unwrap())
     sids = rp.s.get_station_ids()
     if not sids:
         return rp
